@@ -27,12 +27,15 @@ func init() {
 }
 
 func runC06(c *report.Ctx) {
+	checkErrorIdentity(c, scopeFrontEnd, frontEndDeadCases, 8)
+	checkAwaitReleaseOnlyOnSuccess(c)
 	c.Clause("1 events watcher")
 	checkWatcherRecordsBeforeCancel(c)
 	checkWatcherIteration(c)
 	c.Clause("2 failure always carries a body")
 	checkFailureHasBody(c)
 	c.Clause("3 first fault wins")
+	checkFirstFatalErrorLifetime(c)
 	checkFirstFaultPrecedence(c)
 	c.Clause("4 launch failures record a cause")
 	checkLaunchFailures(c)
